@@ -1,7 +1,7 @@
 #!/bin/bash
 # False-alarm sweep: every quick check under several VERIF_SEED values on the unchanged tree; any exit != 0 is printed.
 # usage: tools/seeds_sweep.sh "1 2 3" ["C13 C16"]
-cd /verif
+cd "$(dirname "$0")/.."
 seeds=${1:-"1 2 3 4 5"}; props=${2:-"C01 C13 C14 C15 C16 C17 C19"}
 for s in $seeds; do for p in $props; do
   out=$(VERIF_SEED=$s ./check $p --no-evidence 2>&1); rc=$?
